@@ -50,6 +50,16 @@ import ZV.Proofs.C32Kx
                                 no byte is skipped, none is read twice, nothing trails; share ≤ 255 bytes, signature /
                                 parameters ≤ 65535 bytes; the DHE share satisfies 0 < Ys < p; the signed DHE parameters are
                                 the body without the signature block.
+  * `dhe_parser_guarantees_modulus` / `dhe_gen_panics_iff` / `dhe_client_step_no_panic` (+ `…_verified`)   the step BEHIND
+                                the parser: generateClientKeyExchange hands `ka.p` to crypto/rand.Int, which panics on a
+                                bound ≤ 0 — the step panics exactly when p = 0; the parser (0 < Ys < p) guarantees p ≥ 2, for
+                                the verifying and for the InsecureSkipVerify client (`skx_dhe_skipverify_no_panic`: dropping
+                                the signature verdict lets no panic through either), so no accepted ServerKeyExchange makes
+                                the client step panic, whatever exponent is drawn. The margin is exactly 2
+                                (`dhe_modulus_two_accepted`): a bound `p - k`, k ≥ 2, handed to rand.Int is NOT covered.
+  * `dhe_ckx_roundtrip`         the ClientKeyExchange the client then sends (2-byte length ‖ Yc, Yc = g^x mod p, any x) is
+                                accepted by the server-side parser for the same modulus exactly when Yc ≠ 0 and parsed
+                                back to Yc; the pre-master secret is Ys^x mod p.
   The state machines on top of the reader, the other message parsers and the cryptography of the encrypted phase are
   NOT modelled: they are explored by the T3 matrix (every position of genuine transcripts in the thorough tier,
   structured forgeries with consistent framing).
@@ -337,6 +347,82 @@ theorem skx_dhe_consumes_all (c : DheCtx) (msg : Bytes) (o : DheSkx)
     simp only [List.length_append, List.length_cons, List.length_take] at this
     simp only
     omega
+
+/-! ## the client step behind the DHE parser -/
+
+/-- an InsecureSkipVerify client (the signature verdict is dropped): still no panic, for every message -/
+theorem skx_dhe_skipverify_no_panic (c : DheCtx) (msg : Bytes) : dheSKXSkipVerifyMsg c msg ≠ .panic := by
+  unfold dheSKXSkipVerifyMsg
+  rcases skxUnmarshal_spec msg with ⟨_, h⟩ | ⟨_, h⟩
+  · rw [h]; simp
+  · rw [h]
+    simp only
+    rcases dheSKXSkipVerify_spec c (msg.drop 4) with he | ⟨_, _, _, _, _, _, _, _, _, _, _, _, _, _, _, _, hok⟩
+    · rw [he]; simp
+    · rw [hok]; simp
+
+/-- WHAT THE PARSER GUARANTEES about the group it hands on: 0 < Ys < p, hence p ≥ 2, and fields of at most 65535 bytes -/
+theorem dhe_parser_guarantees_modulus (c : DheCtx) (msg p g ys : Bytes)
+    (h : dheSKXSkipVerifyMsg c msg = .ok (p, g, ys)) :
+    0 < natOf ys ∧ natOf ys < natOf p ∧ 2 ≤ natOf p ∧ p.length ≤ 65535 := by
+  unfold dheSKXSkipVerifyMsg at h
+  rcases skxUnmarshal_spec msg with ⟨_, hu⟩ | ⟨_, hu⟩
+  · rw [hu] at h; cases h
+  rw [hu] at h
+  simp only at h
+  rcases dheSKXSkipVerify_spec c (msg.drop 4) with he | ⟨a1, a2, p', _, _, g', _, _, ys', _, _, hp, _, _, h0, hlt, hok⟩
+  · rw [he] at h; cases h
+  rw [hok] at h
+  cases h
+  have := be16_lt a1 a2
+  exact ⟨h0, hlt, by omega, by omega⟩
+
+/-- WHAT THE CLIENT STEP NEEDS: `rand.Int(rand, p)` panics exactly when p ≤ 0; nothing else in generateClientKeyExchange can -/
+theorem dhe_gen_panics_iff (p g ys : Bytes) (x : Nat) : dheGenCKX p g ys x = .panic ↔ natOf p = 0 := by
+  unfold dheGenCKX
+  by_cases h : natOf p = 0
+  · rw [if_pos h]; simp [h]
+  · rw [if_neg h]; simp [h]
+
+/-- the load-bearing direction, concretely: p = 0 (a zero-length dh_p) would make the step panic — the range guard on Ys
+    is what keeps it out -/
+example : dheGenCKX [] [2] [1] 5 = .panic := by decide
+
+/-- no ServerKeyExchange an InsecureSkipVerify client accepts makes generateClientKeyExchange panic, whatever exponent
+    is drawn -/
+theorem dhe_client_step_no_panic (c : DheCtx) (msg p g ys : Bytes)
+    (h : dheSKXSkipVerifyMsg c msg = .ok (p, g, ys)) (x : Nat) : dheGenCKX p g ys x ≠ .panic := by
+  have := dhe_parser_guarantees_modulus c msg p g ys h
+  rw [Ne, dhe_gen_panics_iff]
+  omega
+
+/-- the same for the verifying client -/
+theorem dhe_client_step_no_panic_verified (c : DheCtx) (msg : Bytes) (o : DheSkx)
+    (h : dheSKXMsg c msg = .ok o) (x : Nat) : dheGenCKX o.p o.g o.ys x ≠ .panic := by
+  obtain ⟨_, _, _, _, _, _, _, _, _, _, _, _, _, _, _, _, h0, hlt, _⟩ := skx_dhe_consumes_all c msg o h
+  rw [Ne, dhe_gen_panics_iff]
+  omega
+
+/-- the margin is exactly 2: p = 2 (g = 1, Ys = 1) IS accepted — so the guarantee does not cover a bound `p - k`, k ≥ 2 -/
+theorem dhe_modulus_two_accepted :
+    dheSKXSkipVerifyMsg ⟨0x0301, signatureRSA, defaultSKXSignatureAlgorithms⟩
+      [12, 0, 0, 9, 0, 1, 2, 0, 1, 1, 0, 1, 1] = .ok ([2], [1], [1]) := by decide
+example : (dheSKXMsg ⟨0x0301, signatureRSA, defaultSKXSignatureAlgorithms⟩
+    [12, 0, 0, 12, 0, 1, 3, 0, 1, 2, 0, 1, 1, 0, 1, 9]).isOk = true := by decide
+
+/-- the ClientKeyExchange produced behind an accepted ServerKeyExchange is well-formed: whatever exponent x is drawn, the
+    server-side parser for the same modulus accepts `type ‖ len24 ‖ len16 ‖ Yc` exactly when Yc = g^x mod p ≠ 0 and reads Yc
+    back; the pre-master secret is the number Ys^x mod p -/
+theorem dhe_ckx_roundtrip (c : DheCtx) (msg p g ys : Bytes) (h : dheSKXSkipVerifyMsg c msg = .ok (p, g, ys))
+    (x : Nat) (t a b d : UInt8) :
+    ∃ ct pms, dheGenCKX p g ys x = .ok (ct, pms) ∧ natOf pms = natOf ys ^ x % natOf p ∧
+      (be24 a b d = ct.length → natOf g ^ x % natOf p ≠ 0 →
+        ckxMsg (.dhe p) (t :: a :: b :: d :: ct) = .ok (bytesOfNat (natOf g ^ x % natOf p))) := by
+  obtain ⟨_, _, h2, hl⟩ := dhe_parser_guarantees_modulus c msg p g ys h
+  exact dheGenCKX_roundtrip p g ys x hl (by omega) t a b d
+
+example : (dheSKXSkipVerifyMsg ⟨0x0303, signatureRSA, defaultSKXSignatureAlgorithms⟩
+    [12, 0, 0, 9, 0, 1, 0x17, 0, 1, 5, 0, 1, 8]).isOk = true := by decide
 
 /-- consumption, ClientKeyExchange: an accepted message is exactly  type ‖ len(3) ‖ len ‖ field  (RSA: 2-byte length +
     encrypted pre-master secret; ECDHE: 1-byte length + point, which was a valid share; DHE: 2-byte length + Yc, 0 < Yc < p) -/
